@@ -322,6 +322,66 @@ impl Family for AliasChains {
     }
 }
 
+/// Alias chains whose links are written with RELATIVE names that resolve differently depending on the module the
+/// link is written in: every link must be looked up from the scope of the alias being followed.
+pub struct RelativeChains;
+impl RelativeChains {
+    fn build(idx: u64) -> Program {
+        // modules P, Q, R each define T (of a different kind) and R defines nothing else; chain: U::use -> P::X1 -> Q::X2 -> [Q|R]::X3 -> T
+        let len = (idx % 3) as usize + 1; // number of alias links after X1
+        let usepos = ((idx / 3) % 3) as usize;
+        let mods = ["P", "Q", "R", "P::In"];
+        let mut files: Vec<MFile> = mods.iter().map(|m| MFile::module(m)).collect();
+        files[0].defs.push(st("T", vec![]));
+        files[1].defs.push(en("T", Some(MType::prim("uint8")), vec![enumerator("E0")]));
+        files[2].defs.push(custom("T"));
+        files[3].defs.push(alias("T", MType::prim("string")));
+        // X1 in P aliases Q::X2 ... the last link aliases the bare name T (which must be the T of ITS module)
+        let homes = [0usize, 1, 2, 3];
+        for k in 0..=len {
+            let home = homes[k % 4];
+            let target = if k == len { MType::named("T") } else { MType::named(&format!("::{}::X{}", mods[homes[(k + 1) % 4]], k + 2)) };
+            // intermediate links written relatively where that is possible: from P::In, "X.." of P is visible
+            files[home].defs.push(alias(&format!("X{}", k + 1), target.attr(MAttr::with("cs::k", vec![MArg::Ident(format!("k{k}"))]))));
+        }
+        let mut u = MFile::module("U");
+        u.defs.push(st("T", vec![MField::new("decoy", MType::prim("bool"))]));
+        let t = MType::named("P::X1");
+        u.defs.push(match usepos {
+            0 => st("Use", vec![MField::new("f", t)]),
+            1 => iface("Use", vec![], vec![op("o", vec![MParam::new("p", t.opt())], MRet::None)]),
+            _ => st("Use", vec![MField::new("f", MType::dict(MType::prim("int32"), t))]),
+        });
+        files.push(u);
+        files
+    }
+}
+impl Family for RelativeChains {
+    fn name(&self) -> String {
+        "relative-alias-chains/chains of 2..4 links across 4 modules that each define a different T; the last link says 'T' x 3 use positions x 2 file orders".into()
+    }
+    fn len(&self) -> u64 {
+        3 * 3 * 2
+    }
+    fn describe(&self, idx: u64) -> Value {
+        let p = Self::build(idx % 9);
+        let rendered = render_program(&p, &Layout::uniform(Sep::Space, Commas::None));
+        json!({"files": rendered.iter().map(|r| r.text.clone()).collect::<Vec<_>>(), "reversed_file_order": idx >= 9})
+    }
+    fn run(&self, idx: u64) -> CaseOut {
+        let mut p = Self::build(idx % 9);
+        if idx >= 9 {
+            p.reverse();
+        }
+        let mut out = CaseOut::new(hash_str(&format!("c03rc{idx}")));
+        out.steps = 0;
+        out.validated = 1;
+        out.nontrivial = true;
+        out.class = check_program(&p, &Layout::uniform(Sep::Space, Commas::None), "relative-alias-chains", &mut out);
+        out
+    }
+}
+
 pub fn families(_tier: &str) -> Vec<Box<dyn Family>> {
-    vec![Box::new(AliasChains), Box::new(ScopeProduct)]
+    vec![Box::new(RelativeChains), Box::new(AliasChains), Box::new(ScopeProduct)]
 }
